@@ -30,6 +30,7 @@ RULES = [
     ("R-clpat", ". filter ( | ( $pat ) | $b )", ". filter ( | p | let ( $pat ) = p ; $b )", "closure pattern parameter -> named parameter + leading let (Verus needs a named parameter to state the closure's ensures)"),
     ("R-clpat", ". map ( | ( $pat ) | $b )", ". map ( | p | let ( $pat ) = p ; $b )", "closure pattern parameter -> named parameter + leading let"),
     ("R-ordmax", "NODE_TIMEOUT . max ( $b )", "vx_duration_max ( NODE_TIMEOUT , $b )", "Ord::max is a provided trait method (Verus accepts no assume_specification for it): stand-in returning one of its arguments"),
+    ("R-foriter", "for ( node , dist_to_beat ) in nodes {", "let mut vx_it = nodes ; loop { let vx_nx = vx_it . next ( ) ; if vx_nx . is_none ( ) { break ; } let ( node , dist_to_beat ) = vx_nx . unwrap ( ) ;", "for over a generic iterator -> its definition (loop over next() until None); Verus for-loops support neither generic iterators nor `continue`"),
     ("R-forvec", "for node in nodes {", "let mut vx_i : usize = 0 ; while vx_i < nodes . len ( ) { let node = nodes [ vx_i ] ; vx_i += 1 ;", "for over a Vec of Copy items -> indexed while loop with the same element sequence (Verus for-loops do not support `continue`)"),
     ("R-pin", "pin ! ( $e )", "$e", "pin! dropped: under the sequential reading (R-deasync) the future has run to completion where it is created"),
     ("R-pending", "std :: future :: pending :: < ( ) > ( )", "vx_pending ( )", "a future that never resolves -> stand-in that never returns (postcondition false)"),
